@@ -6,9 +6,28 @@ HERE = os.path.dirname(os.path.abspath(__file__))
 sys.path.insert(0, os.path.join(HERE, 'lib'))
 from vt.manifest_table import CHECKS, NOT_APPLICABLE, ENGINES, NOTES  # noqa
 
+import re
+DESIGN = open(os.path.join(HERE, 'DESIGN.md')).read()
+
+
+def extended(pid):
+    """The "*Added after waves ...*" paragraphs of DESIGN.md §4 for pid (the
+    families the check gained after seeded-change waves), as one sentence."""
+    m = re.search(r'### %s — [^\n]*\n(.*?)(?=\n### |\n-{20,})' % pid, DESIGN, re.S)
+    out = []
+    for ln in (m.group(1).splitlines() if m else ()):
+        mm = re.match(r'\*Added after waves ([^:]*):\* (.*)', ln)
+        if mm:
+            out.append(mm.group(2).strip())
+    return ' '.join(out)
+
+
 checks = []
 for c in CHECKS:
     pid = c['id']
+    ext = extended(pid)
+    if ext:
+        c = dict(c, text=c['text'] + ' Families added after the seeded-change waves (DESIGN.md §4 %s, §9): %s' % (pid, ext))
     checks.append({
         'property_id': pid,
         'quick_cmd': './check %s --tier quick' % pid,
